@@ -94,6 +94,10 @@ func ResolveRelativeSource(a, b Source) (Source, error) {
 	case LocalSource:
 		aRaw := a.relPath
 		new := path.Join(aRaw, bRaw)
+		// "." and ".." are written with a trailing slash in canonical form.
+		if new == "." || new == ".." {
+			new += "/"
+		}
 		if !looksLikeLocalSource(new) {
 			new = "./" + new // preserve LocalSource's prefix invariant
 		}
